@@ -400,6 +400,7 @@ func c19Case(c *hx.Ctx, r *hx.RNG, idx int64) {
 			isNaN := false
 			var sOK bool = true
 			var fsrc *big.Float // argument of NewFloat64 / NewFloat
+			injectedF, firedF := false, false
 			var slack int64
 			pi := hx.Try(func() {
 				switch which {
@@ -448,6 +449,20 @@ func c19Case(c *hx.Ctx, r *hx.RNG, idx int64) {
 					if !isNaN {
 						fsrc, slack = new(big.Float).SetFloat64(f), 1
 					}
+					if !isNaN && f != 0 && !math.IsInf(f, 0) && r.Chance(12) {
+						// a panic that is not an ErrNaN, raised inside the conversion (first rounding): it must escape, whether
+						// or not an error is pending (NewFloat64 is the one operation that still runs while latched)
+						injectedF = true
+						n := 0
+						decimal.VerifHitFn = func(site int) {
+							if site == decimal.VerifSiteRound {
+								if n++; n == 1 {
+									firedF = true
+									panic("injected string panic")
+								}
+							}
+						}
+					}
 					z = cx.NewFloat64(f)
 					exact = false // faithful, not exact (C15): sign, class and distance are judged below
 				case 6:
@@ -473,8 +488,21 @@ func c19Case(c *hx.Ctx, r *hx.RNG, idx int64) {
 					o = lit.outcome()
 				}
 			})
+			decimal.VerifHitFn = nil
 			note(name)
 			c.Eval(r.U64(), true, "factory/"+opFamily(name))
+			if injectedF && firedF {
+				c.Count("injected_panics_in_factories", 1)
+				if pi == nil {
+					bad("foreign-panic-swallowed", "%s: a non-ErrNaN panic raised inside the conversion was swallowed (latched=%v)", name, m.latched)
+					return
+				}
+				if pi.IsNaN {
+					bad("foreign-panic-changed", "%s: injected panic surfaced as ErrNaN", name)
+					return
+				}
+				continue // the latch is as it was: nothing else to judge
+			}
 			if pi != nil {
 				if isNaN && pi.IsNaN {
 					bad("nan-panic-escaped", "%s: the ErrNaN panic escaped instead of being recorded by the context", name)
